@@ -65,7 +65,12 @@ class DynSim(cluster.Sim):
     def majority_applies(self, name, p):
         # with a changing member set the majority is defined by the node that decides the commit (the first
         # to report the position committed); followers merely learn it
-        return self.G_by.get(p, (None,))[0] == name and self.G_by[p][1] == self.step_no
+        if self.G_by.get(p, (None, None))[1] != self.step_no:
+            return False
+        deciders = [n for (n, q) in self.advanced_now if q == p and n in self.nodes and (self.nodes[n]._isLeader() or self.leader_before.get(n))]
+        if deciders:
+            return name in deciders          # several nodes advanced in the same step: the leader decided
+        return self.G_by[p][0] == name
 
     def majority_alt(self, name, p, e):
         # the deciding leader may have changed its own member set later in the same step (a membership entry
@@ -275,7 +280,7 @@ def shard(seed, n, tier):
 
 
 def main(tier, seed, cases=None):
-    return simprop.standard_main(PROP, LEVEL, __name__, RULE, ASSUMPTIONS, tier, seed, cases, quick=(6, 200), thorough=(16, 3000))
+    return simprop.standard_main(PROP, LEVEL, __name__, RULE, ASSUMPTIONS, tier, seed, cases, quick=(8, 250), thorough=(16, 3000))
 
 
 def replay(path):
